@@ -236,7 +236,7 @@ func TestVerifC02(t *testing.T) {
 		// ---------------- (A) gatherMatches on generated candidate sets
 		for rep := 0; rep < 6; rep++ {
 			nameLen := 1 + r.Intn(8)
-			var subs, res []*candidateMatch
+			var subs, res, wds, syms []*candidateMatch
 			var cs []vfCand
 			k := r.Intn(9)
 			for j := 0; j < k; j++ {
@@ -247,16 +247,23 @@ func TestVerifC02(t *testing.T) {
 				cs = append(cs, c)
 			}
 			for j, m := range vfC03ToCM(cs) {
-				if j%2 == 0 {
+				switch (j + rep) % 4 { // the four kinds of atoms gatherMatches collects candidates from
+				case 0:
 					subs = append(subs, m)
-				} else {
+				case 1:
 					res = append(res, m)
+				case 2:
+					wds = append(wds, m)
+				default:
+					syms = append(syms, m)
 				}
 			}
 			t1 := &substrMatchTree{current: subs}
 			t2 := &regexpMatchTree{found: res}
-			mt := &orMatchTree{children: []matchTree{t1, t2}}
-			known := map[matchTree]bool{t1: true, t2: true}
+			t3 := &wordMatchTree{found: wds}
+			t4 := &symbolRegexpMatchTree{found: syms}
+			mt := &orMatchTree{children: []matchTree{t1, &andMatchTree{children: []matchTree{t3, t2}}, t4}}
+			known := map[matchTree]bool{t1: true, t2: true, t3: true, t4: true, mt.children[1]: true}
 			d := vfC02NameShard(t, nameLen)
 			out := d.gatherMatches(0, mt, known)
 			var oc []vfCand
